@@ -20,8 +20,8 @@ EXTENDS Integers, Sequences, FiniteSets, TLC, Json, IOUtils, SequencesExt
 
 Rec == ndJsonDeserialize(IOEnv.TRACE)
 MaxVerdicts == 40
-VARIABLES l, sc, written, fetched, truncated, skipping, verdicts, nverdicts, nok
-vars == <<l, sc, written, fetched, truncated, skipping, verdicts, nverdicts, nok>>
+VARIABLES l, sc, written, fetched, truncated, lastreq, lastcut, ncuts, skipping, verdicts, nverdicts, nok
+vars == <<l, sc, written, fetched, truncated, lastreq, lastcut, ncuts, skipping, verdicts, nverdicts, nok>>
 Ev == Rec[l]
 Flag(rule) ==
   /\ verdicts' = IF nverdicts < MaxVerdicts THEN Append(verdicts, [scenario |-> sc.n, line |-> l, rule |-> rule, restart |-> "fault" \in DOMAIN sc]) ELSE verdicts
@@ -29,7 +29,7 @@ Flag(rule) ==
   /\ skipping' = TRUE
 NoFlag == UNCHANGED <<verdicts, nverdicts, skipping>>
 
-TInit == l = 1 /\ sc = [n |-> 0] /\ written = {} /\ fetched = {} /\ truncated = FALSE /\ skipping = TRUE /\ verdicts = <<>> /\ nverdicts = 0 /\ nok = 0
+TInit == l = 1 /\ sc = [n |-> 0] /\ written = {} /\ fetched = {} /\ truncated = FALSE /\ lastreq = <<-1, -1>> /\ lastcut = -1 /\ ncuts = 0 /\ skipping = TRUE /\ verdicts = <<>> /\ nverdicts = 0 /\ nok = 0
 
 Triples(q) == {<<q[i][1], q[i][2], q[i][3]>> : i \in 1..Len(q)}
 Src == Triples(sc.src)            \* <<id, offset, size>> of every source chunk
@@ -41,21 +41,21 @@ InPlace == {c \in OutFound : c \in Src}
 
 Scenario ==
   /\ l <= Len(Rec) /\ Ev.ev = "scenario" /\ l' = l + 1
-  /\ sc' = Ev /\ written' = {} /\ fetched' = {} /\ truncated' = FALSE
+  /\ sc' = Ev /\ written' = {} /\ fetched' = {} /\ truncated' = FALSE /\ lastreq' = <<-1, -1>> /\ lastcut' = -1 /\ ncuts' = 0
   /\ IF "fault" \in DOMAIN Ev /\ Ev.fault.mode = "eio" /\ Ev.first_exit = 0
      THEN /\ verdicts' = IF nverdicts < MaxVerdicts THEN Append(verdicts, [scenario |-> Ev.n, line |-> l, rule |-> "CRASH: run exited 0 although a write to the output failed (EIO injected)", restart |-> TRUE]) ELSE verdicts
           /\ nverdicts' = nverdicts + 1 /\ skipping' = TRUE
      ELSE skipping' = FALSE /\ UNCHANGED <<verdicts, nverdicts>>
   /\ UNCHANGED nok
 Skip == /\ l <= Len(Rec) /\ skipping /\ Ev.ev # "scenario" /\ l' = l + 1
-        /\ UNCHANGED <<sc, written, fetched, truncated, skipping, verdicts, nverdicts, nok>>
+        /\ UNCHANGED <<sc, written, fetched, truncated, lastreq, lastcut, ncuts, skipping, verdicts, nverdicts, nok>>
 Step(e) == l <= Len(Rec) /\ ~skipping /\ Ev.ev = e /\ l' = l + 1
 
 OpenEv == /\ Step("open")
           /\ IF Ev.role = "archive" /\ \E i \in 1..Len(Ev.flags) : Ev.flags[i] \in {"O_WRONLY", "O_RDWR", "O_CREAT", "O_TRUNC"} THEN Flag("C16 ONLYOUTPUT: archive opened for writing")
              ELSE IF Ev.role = "output" /\ \E i \in 1..Len(Ev.flags) : Ev.flags[i] = "O_TRUNC" THEN Flag("W0: output truncated on open")
              ELSE NoFlag
-          /\ UNCHANGED <<sc, written, fetched, truncated, nok>>
+          /\ UNCHANGED <<sc, written, fetched, truncated, lastreq, lastcut, ncuts, nok>>
 
 \* C13
 WriteRule(off, len) ==
@@ -91,21 +91,33 @@ IoEv ==
              /\ NoFlag /\ UNCHANGED written
      ELSE IF Ev.role = "archive" /\ Ev.ev = "write" THEN Flag("C16 ONLYOUTPUT: archive written") /\ UNCHANGED <<written, fetched>>
      ELSE NoFlag /\ UNCHANGED <<written, fetched>>       \* reads of the output (scan, copy sources) are not judged
-  /\ UNCHANGED <<sc, truncated, nok>>
+  /\ UNCHANGED <<sc, truncated, lastreq, lastcut, ncuts, nok>>
 
 \* HTTP: a range outside the header covers exactly a run of stored ranges of missing chunks
 Covered(first, last) == {a \in Arch : a[2] >= first /\ a[2] + a[3] - 1 <= last}
 RECURSIVE SumSizes(_)
 SumSizes(S) == IF S = {} THEN 0 ELSE LET a == CHOOSE x \in S : TRUE IN a[3] + SumSizes(S \ {a})
+\* C07 at the process level: chunk-data requests come in archive order and are maximal runs - a request never starts
+\* exactly where the previous one ended, and never at or before it
+Budget == IF "httpfault" \in DOMAIN sc THEN sc.httpfault.budget ELSE 0
 HttpEv ==
   /\ Step("http")
-  /\ IF Ev.last < sc.hdr THEN NoFlag /\ UNCHANGED fetched
+  /\ IF Ev.last < sc.hdr THEN NoFlag /\ UNCHANGED <<fetched, lastreq, lastcut, ncuts>>
+     ELSE IF lastcut >= 0 THEN
+          \* C08 at the process level: the previous transfer was cut after lastcut bytes; the retry resumes exactly there, within the budget
+          /\ lastreq' = <<Ev.first, Ev.last>> /\ lastcut' = Ev.cut /\ ncuts' = ncuts + (IF Ev.cut >= 0 THEN 1 ELSE 0) /\ UNCHANGED fetched
+          /\ (IF ncuts > Budget THEN Flag("RETRY: another request although the configured retry count was exhausted")
+              ELSE IF <<Ev.first, Ev.last>> # <<lastreq[1] + lastcut, lastreq[2]>> THEN Flag("RESUME: the retry does not resume at the first byte not yet received up to the end of the run")
+              ELSE NoFlag)
      ELSE LET cov == Covered(Ev.first, Ev.last) ids == {a[1] : a \in cov} IN
-          IF cov = {} \/ SumSizes(cov) # Ev.last - Ev.first + 1 THEN Flag("FETCH: HTTP range is not exactly a run of stored chunk ranges") /\ UNCHANGED fetched
-          ELSE IF ids \cap FoundIds # {} THEN Flag("FETCH: a chunk found in the prior output or a seed was requested from the archive") /\ UNCHANGED fetched
-          ELSE IF ids \cap fetched # {} THEN Flag("FETCH: chunk requested from the archive twice") /\ UNCHANGED fetched
-          ELSE IF ~(ids \subseteq NeededIds) THEN Flag("FETCH: chunk that the source does not need was requested") /\ UNCHANGED fetched
-          ELSE fetched' = fetched \cup ids /\ NoFlag
+          IF cov = {} \/ SumSizes(cov) # Ev.last - Ev.first + 1 THEN Flag("FETCH: HTTP range is not exactly a run of stored chunk ranges") /\ UNCHANGED <<fetched, lastreq, lastcut, ncuts>>
+          ELSE IF ids \cap FoundIds # {} THEN Flag("FETCH: a chunk found in the prior output or a seed was requested from the archive") /\ UNCHANGED <<fetched, lastreq, lastcut, ncuts>>
+          ELSE IF ids \cap fetched # {} THEN Flag("FETCH: chunk requested from the archive twice") /\ UNCHANGED <<fetched, lastreq, lastcut, ncuts>>
+          ELSE IF ~(ids \subseteq NeededIds) THEN Flag("FETCH: chunk that the source does not need was requested") /\ UNCHANGED <<fetched, lastreq, lastcut, ncuts>>
+          ELSE /\ fetched' = fetched \cup ids /\ lastreq' = <<Ev.first, Ev.last>> /\ lastcut' = Ev.cut /\ ncuts' = ncuts + (IF Ev.cut >= 0 THEN 1 ELSE 0)
+               /\ (IF lastreq[2] + 1 = Ev.first THEN FlagSoft("MAXRUN: two requests for back-to-back stored chunks (the run was not requested as one range)")
+                   ELSE IF Ev.first <= lastreq[2] THEN FlagSoft("MAXRUN: chunk-data requests are not in archive order")
+                   ELSE NoFlag)
   /\ UNCHANGED <<sc, written, truncated, nok>>
 
 TruncEv ==
@@ -115,19 +127,21 @@ TruncEv ==
      ELSE IF Ev.len # sc.src_len THEN Flag("EXACT: output resized to another length than the source's")
      ELSE NoFlag
   /\ truncated' = TRUE
-  /\ UNCHANGED <<sc, written, fetched, nok>>
-FailedWriteEv == /\ Step("write_failed") /\ NoFlag /\ UNCHANGED <<sc, written, fetched, truncated, nok>>
+  /\ UNCHANGED <<sc, written, fetched, lastreq, lastcut, ncuts, nok>>
+FailedWriteEv == /\ Step("write_failed") /\ NoFlag /\ UNCHANGED <<sc, written, fetched, truncated, lastreq, lastcut, ncuts, nok>>
 
 AfterEv ==
   /\ Step("after")
   /\ IF Ev.exit = 101 THEN Flag("PANIC: bita clone panicked")
-     ELSE IF Ev.exit # 0 THEN Flag("FAIL: bita clone failed although the archive is readable and nothing was injected")
+     ELSE IF ncuts > Budget THEN (IF Ev.exit = 0 THEN Flag("RETRY: clone exited 0 although more transfers failed than the configured retry count") ELSE NoFlag)
+     ELSE IF Ev.exit # 0 THEN Flag(IF "httpfault" \in DOMAIN sc THEN "RETRY: clone failed although the transfer failures stayed within the configured retry count"
+                                   ELSE "FAIL: bita clone failed although the archive is readable and nothing was injected")
      ELSE IF sc.kind = "blockdev" /\ ~Ev.out_prefix_eq_src THEN Flag("EXACT: the device does not start with the source")
      ELSE IF sc.kind # "blockdev" /\ ~Ev.out_eq_src THEN Flag("EXACT: output differs from the source (content or length)")
      ELSE IF fetched # NeededIds \ FoundIds THEN Flag("FETCH: the set of chunks taken from the archive is not exactly the missing ones")
      ELSE NoFlag
-  /\ UNCHANGED <<sc, written, fetched, truncated, nok>>
-DoneEv == /\ Step("done") /\ skipping' = TRUE /\ nok' = nok + 1 /\ UNCHANGED <<sc, written, fetched, truncated, verdicts, nverdicts>>
+  /\ UNCHANGED <<sc, written, fetched, truncated, lastreq, lastcut, ncuts, nok>>
+DoneEv == /\ Step("done") /\ skipping' = TRUE /\ nok' = nok + 1 /\ UNCHANGED <<sc, written, fetched, truncated, lastreq, lastcut, ncuts, verdicts, nverdicts>>
 
 TNext == Scenario \/ Skip \/ OpenEv \/ IoEv \/ HttpEv \/ TruncEv \/ FailedWriteEv \/ AfterEv \/ DoneEv
 TSpec == TInit /\ [][TNext]_vars
